@@ -216,9 +216,18 @@ def execute(case):
     viol = None
     sig_by = {}      # (entry, drawclass, verdict) -> {size: signature}
     for n in sizes:
+        # one container per size, reused for every draw and entry point with its logs cleared (a check that mutated it would
+        # be reported and end the sweep); one-shot streams are rebuilt every time
+        x, inner = build(case, n)
+        reusable = case['kind'] != 'OneShot'
         for draw in case['draws']:
             for ep in entry.ENTRY_POINTS:
-                x, inner = build(case, n)
+                if reusable:
+                    x.log.clear()
+                    for l in inner:
+                        l.log.clear()
+                else:
+                    x, inner = build(case, n)
                 out = prep.eval(ep, _wrap_obj(case, x), draw)
                 verdict = entry.classify(out, prep.conf)
                 if verdict == 'error':
